@@ -35,7 +35,7 @@ CHECKS.update({
 
 CHECKS.update({
  "C05": dict(cat="exploration", design="DESIGN.md §3 C05",
-   technique="property-based testing over generated type pairs (ten kinds of single-edit wire-altering twins incl. a versioned variant declared before older ones, insignificant twins, unrelated pairs) with a type-level wire normal form as oracle; enumerated header corruptions",
+   technique="property-based testing over generated type pairs (twelve kinds of single-edit wire-altering twins incl. a versioned variant declared before older ones and a variant gaining/losing its payload, insignificant twins, twins that differ only in memory layout, unrelated pairs) with a type-level wire normal form as oracle; enumerated header corruptions",
    text="Ordered pairs (saved type, loaded type) are generated together with values: where the wire normal forms differ load must fail with IncompatibleSchema (never Ok, panic or another error); where the documentation calls the difference insignificant it must succeed with the same value. Header corruptions must be rejected without reading past the 16-byte header.",
    note="Acceptance is asserted only for documented-insignificant differences; pairs that share a normal form carry no expectation. Normal forms of private leaf encodings come from the observed format."),
 })
@@ -73,7 +73,7 @@ CHECKS.update({
    note="Evolving callback interfaces and variants unknown to the receiver are excluded by construction. Model = abigen::model."),
  "C15": dict(cat="exploration", design="DESIGN.md §3 C15, engine/ABI_INTEGRATION.md §3",
    technique="model-based property testing: proptest sequences of verify_compatiblity runs over revisions of generated interfaces, compared with a ledger model",
-   text="Sequences of runs (repeat, advance to a compatible revision, switch to a labelled breaking revision, go back) over a fresh or pre-populated temp directory: each run must be Ok exactly when the model (version -> definition recorded at first sight) says the revision is backward compatible, the directory must contain one file per version seen, and re-running an unchanged revision must succeed.",
+   text="Sequences of runs (repeat, advance to a compatible revision, switch to a labelled breaking revision — removed method, changed argument count, argument type, return type or closure signature —, go back) over a fresh or pre-populated temp directory: each run must be Ok exactly when the model (version -> definition recorded at first sight) says the revision is backward compatible, the directory must contain one file per version seen, and re-running an unchanged revision must succeed.",
    note="Hand-edited schema files and Send/Sync/receiver changes are not generated."),
  "C16": dict(cat="exploration", design="DESIGN.md §3 C16, engine/ABI_INTEGRATION.md §3",
    technique="randomised schedule sampling: generated multi-thread programs run in fresh processes with seeded perturbation, compared against the sequential run; watchdog with deadlock confirmation",
